@@ -267,10 +267,29 @@ pub fn run(ctx: &Ctx, rep: &mut Report) {
         };
         let mut dead = false;
         let mut window = false;
+        let mut crowded = !rng.chance(1, 3);
         let unknown_fns = unknown_entry_points("axelar-gateway", &["__constructor", "approve_messages", "call_contract", "epoch", "epoch_by_signers_hash", "is_message_approved", "is_message_executed", "message_approval", "message_approval_by_key", "message_approval_hash", "rotate_signers", "run_migration", "signers_hash_by_epoch", "validate_message", "validate_proof", "domain_separator", "minimum_rotation_delay", "previous_signers_retention", "gateway", "owner", "operator", "upgrade", "migrate", "version", "transfer_ownership", "transfer_operatorship"]);
         for _ in 0..ops_per_universe {
             if dead {
                 break;
+            }
+            // in one universe in three, somewhere in the middle of the history, the gateway approves 48
+            // other messages (in batches of four): what it remembers about a message must not depend
+            // on how many it has seen since
+            if !crowded && !window && rng.chance(1, 12) {
+                crowded = true;
+                let dest = w.apps[0].clone();
+                for b in 0..12u32 {
+                    let batch: Vec<MMessage> = (0..4u32)
+                        .map(|i| MMessage { source_chain: b"filler".to_vec(), message_id: format!("f-{}-{}", b, i).into_bytes(), source_address: b"0xfiller".to_vec(), contract: sc_addr(&dest), payload_hash: rng.bytes32() })
+                        .collect();
+                    let ring = w.ring.clone();
+                    if !w.g.approve_honest(&mut w.u, &ring, &batch) {
+                        break;
+                    }
+                }
+                rep.count("many-other-approvals-in-between");
+                rep.step("the gateway approves 48 other messages".into());
             }
             // the gateway is upgraded to the same code; the migration follows a few operations later,
             // with unit data or - if the migration wants data - with a list of every message the
